@@ -16,7 +16,7 @@ META = {
               "executed loss term; detach(), .data and every result computed while grad is disabled become stop-gradient variables (value kept, "
               "invisible to the autograd derivative)", "quadratic CVaR: bisect contract stub, its output treated as locally constant (envelope theorem)"],
     "axioms": ["polynomial / ite arithmetic; exp/log/sqrt derivative rules"],
-    "assumptions": ["the hedging model is a linear layer with symbolic weights and bias (recurrent through prev_hedge in the stepwise branch); "
+    "assumptions": ["autograd is modelled on terms: what torch saves for backward (and its version counters) is not modelled, so an in-place write through .data into a tensor saved for backward is outside the claim (seed C14-r6m1)", "the hedging model is a linear layer with symbolic weights and bias (recurrent through prev_hedge in the stepwise branch); "
                     "gradients are compared on the open set where every ite guard (|du| = 0, ties in topk, relu kinks) is strict",
                     "D_true = symbolic derivative of the loss value term with every stop-gradient definition substituted (the role finite differences "
                     "play in the replay); numerical accuracy of torch's autograd kernels is outside the claim",
@@ -106,16 +106,21 @@ def loss_of(c, hedger, deriv, hedge, crit_name):
     return hedger.criterion(hedger.compute_pl(deriv, hedge))
 
 
-def grad_case(N, T, H, stepwise, cost_pos, crit_name, eval_mode=False, sabotage=False, band=None, module_feature=False, n_times=None):
+def grad_case(N, T, H, stepwise, cost_pos, crit_name, eval_mode=False, sabotage=False, band=None, module_feature=False, n_times=None, after_price=False):
     def fn(c):
         c.env["log10_decade"] = 0
         c.env["track_grad"] = True
         deriv, hedge, hedger, params, crit = build(c, N, T, H, stepwise, cost_pos, crit_name, eval_mode, band, module_feature)
-        if n_times:
+        if n_times or after_price:
             from harness.c06 import SimStub
 
             sim = SimStub(c, deriv, N, T)
             spots = []
+        if after_price:
+            # the hedger has been used without gradients before (price(): simulate + hedge under no_grad); a loss built afterwards
+            # through compute_pl / compute_portfolio must still be connected to every parameter path, the recurrent one included
+            with patched_bisect(c, check_preconditions=False):
+                hedger.price(deriv, hedge=hedge, n_paths=N)
         if sabotage:
             # negative control: a second forward hook that stores a detached previous output (what a careless edit of
             # save_prev_output would do); the gradient obligations below must then come back violated
@@ -225,6 +230,8 @@ def cases():
                        families=fam, timeout=120, max_paths=16, bounds="N=2 T=3, band model: prev_hedge clamped around a trainable centre"))
     cs.append(Case("grad/es/module-feature-over-prev_hedge", grad_case(2, 3, 1, True, False, "es", module_feature=True), encodes=enc + ("ModuleOutput.get/forward",),
                    families=fam, timeout=120, max_paths=16, bounds="N=2 T=3, a parameter-free ModuleOutput feature whose inputs include prev_hedge"))
+    cs.append(Case("grad/es/stepwise/after-price", grad_case(2, 3, 1, True, False, "es", after_price=True), encodes=enc + ("Hedger.price",),
+                   bounds="N=2 T=3: price() (no gradients) first, then the loss and its gradient on the same hedger", timeout=120))
     cs.append(Case("grad/entropic/compute_loss-n_times=2", grad_case(2, 3, 1, True, False, "entropic", n_times=2), encodes=enc + ("ensemble_mean",),
                    families=fam, timeout=120, max_paths=16, bounds="gradient of compute_loss(n_times=2): mean over two simulated batches"))
     cs.append(Case("control/detached-prev-output", grad_case(2, 3, 1, True, False, "mse", sabotage=True), encodes=enc, families=fam, timeout=120, max_paths=16,
